@@ -27,8 +27,9 @@ class Canon(ast.NodeTransformer):
     def visit_If(self, n):
         self.generic_visit(n)
         t = n.test
-        if isinstance(t, ast.UnaryOp) and isinstance(t.op, ast.Not) and n.orelse:
-            n.test = t.operand
+        pos = positive_form(t) if n.orelse else None          # `not C`, or a De Morgan form of it (N17)
+        if pos is not None:
+            n.test = pos
             n.body, n.orelse = n.orelse, n.body
         return n
 
